@@ -53,6 +53,10 @@ COLLIDING = [
     'grammar h;\nID = /[a-z]+/;\nstart = ID "." ID "a+";\n',
     'grammar i;\nID = /[A-Z]+/;\nANY = "x";\nstart = ID ANY;\n',
     'grammar j;\nPL = "+";\nstart = start "." | PL "a+" | ;\n',
+    # the same mistake in two specifications: each must get its own diagnostics
+    'grammar x;\nID = $IDENT;\nstart = ID;\n',
+    'grammar y;\nNUM = /[0-9]+/;\nWORD = $IDENT;\nBAD = /[z-a]/;\nstart = NUM missing;\n',
+    'grammar z;\nBAD = /[z-a]/;\nDUP = "d";\nDUP = "e";\nstart = BAD DUP missing;\n',
 ]
 PATTERNS = ["[a-z]+", "(ab|cd)*e", "[^0-9]", "\\d{2,3}", "[[:alpha:]_]\\w*", "(", "a{3,1}", "a{4,2})", "[z-a", "(b{2,1}", "[a-c]+x", "\\p{Nope}x)"]
 
